@@ -10,12 +10,15 @@ CONSTANTS Fudge, Dts, Tampers
 
 Requests == [op : {"update", "axfr", "ixfr"}, signed : BOOLEAN, keyName : {"k1", "k2", "kx"},
              macKey : {"k1", "k2", "kbad"}, alg : {"cfg", "other"}, macLen : {"full", "trunc"},
-             dt : Dts, tamper : Tampers]
-Policies == [allowUpdate : BOOLEAN, axfr : {"deny", "all", "signed"}, fudge : {Fudge}, store : {"sqlite", "memory"}]
+             dt : Dts, tamper : Tampers, hdr : {"plain", "rd", "cd", "rdcd"}]
+Policies == {x \in [allowUpdate : BOOLEAN, axfr : {"deny", "all", "signed"}, fudge : {Fudge}, store : {"sqlite", "memory"},
+                    start : {"direct", "first", "restart"}] : x.store = "memory" => x.start = "direct"}
 
 \* an unsigned request has no TSIG fields: normalise them so that descriptions are unique
-Normal(r) == r.signed \/ (r.keyName = "kx" /\ r.macKey = "kbad" /\ r.alg = "cfg" /\ r.macLen = "full"
-                            /\ r.dt = 0 /\ r.tamper \in {"none", "msgId", "appended"})
+Normal(r) == /\ r.signed \/ (r.keyName = "kx" /\ r.macKey = "kbad" /\ r.alg = "cfg" /\ r.macLen = "full"
+                              /\ r.dt = 0 /\ r.tamper \in {"none", "msgId", "appended"})
+             \* header bits are varied on otherwise unremarkable requests only
+             /\ r.hdr # "plain" => (r.tamper = "none" /\ r.macLen = "full" /\ r.alg = "cfg" /\ r.dt \in {0, Fudge + 1})
 
 VARIABLES r, p, pc, effect, tsigError, replySigned
 vars == <<r, p, pc, effect, tsigError, replySigned>>
@@ -68,4 +71,6 @@ C13_EffectOnlyIfValid == (pc = "done") => C13_EffectOk(r, p, effect)
 C13_HonoursAuthentic == (pc = "done" /\ Honoured(r, p)) => effect
 \* an authenticated effect is always answered with a signed reply
 C13_SignedReply == (pc = "done" /\ effect /\ ReplyMustBeSigned(r, p)) => replySigned
+\* no MAC is ever computed for a sender that did not show the key (RFC 8945 5.3.2)
+C13_NoOracle == (pc = "done") => C13_NoOracleOk(r, replySigned)
 =============================================================================
